@@ -20,6 +20,7 @@ CONSTANTS
   LOOPN = {}
   LOOPEVERY = {}
   LOOPSTYLES = {}
+  SWEEPSHAPES = {}
 INVARIANTS TypeOK FunctionOK Emit
 PROPERTIES Immutable
 CHECK_DEADLOCK FALSE
